@@ -443,17 +443,22 @@ def recover_stream(C, entries, name, per_file=40, timeout=600):
 # ------------------------------------------------------------------------------------------------ semantic tie of `serialize` (statement level)
 def render_stream(C, entries, name, per_file=25, timeout=900):
     """For every accepted entry that carries result['sources'] (entries run with want_sources=True): parse, with the GENERIC
-    fail-closed parser tools/py2stmt.py, the bodies of `serialize` AND `deserialize` of every generated class into the statement
-    terms of coq/Model/PyStmt.v / coq/Model/PyStmtR.v, and check inside Coq (Model/RenderCheck.v, Model/RenderCheckD.v, vm_compute)
-    that they are syntactically equal to `render_serialize` (Model/RenderSer.v) / `render_deserialize` (Model/RenderDeser.v) of the
-    same class's body in `elab tree` - the functions about which Proofs/RenderSer.v and Proofs/RenderDeser.v prove: running these
-    statements (interpreters of Model/PyStmt.v, Model/PyStmtR.v) = Model/Ser.v, Model/Deser.v.
+    fail-closed parser tools/py2stmt.py, the bodies of `serialize`, `deserialize` AND `__init__` of every generated class into the
+    terms of coq/Model/PyStmt.v / coq/Model/PyStmtR.v / coq/Model/RenderInit.v, and check inside Coq (Model/RenderCheck.v,
+    Model/RenderCheckD.v, Model/RenderCheckI.v, vm_compute) that they are syntactically equal to `render_serialize`
+    (Model/RenderSer.v) / `render_deserialize` (Model/RenderDeser.v) / `render_init` (Model/RenderInit.v) of the same class's body in
+    `elab tree` - the functions about which Proofs/RenderSer.v, Proofs/RenderDeser.v and Proofs/RenderInit.v prove: running these
+    statements (interpreters of Model/PyStmt.v, Model/PyStmtR.v, Model/RenderInit.v) = Model/Ser.v, Model/Deser.v, and the
+    constructor models `init_model` / `ctor_slots` / ObjModel.construct.
+    The read-only properties of every class (py2stmt.getters_of) are compared with Model/RenderCheckI.render_getters in the same
+    evaluation as `__init__` (what: 'properties').
     Classes whose body is outside a theorem's static side condition are counted separately ('outside the theorem').
-    Returns the list of problems: dict(tree, cls, what, ...); problems of the deserialize side carry method='deserialize'."""
+    Returns the list of problems: dict(tree, cls, what, ...); problems of the other methods carry method='deserialize' / '__init__' /
+    'properties'."""
     import py2stmt
     t0 = time.time()
     items, problems = [], []
-    n_classes = n_dclasses = 0
+    n_classes = n_dclasses = n_iclasses = 0
     for e in entries:
         r = e.get('result') or {}
         if not r.get('accepted') or r.get('sources') is None:
@@ -465,7 +470,14 @@ def render_stream(C, entries, name, per_file=25, timeout=900):
         except Exception as ex:          # the parser itself failed: fail closed
             problems.append(dict(tree=e['name'], cls='<package>', what='parser crashed', detail=f"{type(ex).__name__}: {ex}"))
             continue
-        bad, dbad = set(), set()
+        bad, dbad, ibad = set(), set(), set()
+        gbad = set()
+        for u in par['gunparsed']:
+            gbad.add(u.cls)
+            problems.append(dict(tree=e['name'], cls=u.cls, what='unparsed', method='properties', lineno=u.lineno, why=u.why, dump=u.dump[:600]))
+        for u in par['iunparsed']:
+            ibad.add(u.cls)
+            problems.append(dict(tree=e['name'], cls=u.cls, what='unparsed', method='__init__', lineno=u.lineno, why=u.why, dump=u.dump[:600]))
         for u in par['unparsed']:
             bad.add(u.cls)
             problems.append(dict(tree=e['name'], cls=u.cls, what='unparsed', lineno=u.lineno, why=u.why, dump=u.dump[:600]))
@@ -473,44 +485,59 @@ def render_stream(C, entries, name, per_file=25, timeout=900):
             dbad.add(u.cls)
             problems.append(dict(tree=e['name'], cls=u.cls, what='unparsed', method='deserialize', lineno=u.lineno, why=u.why, dump=u.dump[:600]))
         try:
-            terms = (py2stmt.coq_parsed(par['classes']), coq_tree(e['tree']), py2stmt.coq_parsed(par['dclasses']))
+            terms = (py2stmt.coq_parsed(par['classes']), coq_tree(e['tree']), py2stmt.coq_parsed(par['dclasses']), py2stmt.coq_parsed(par['iclasses']),
+                     py2stmt.coq_parsed(par['gclasses']))
         except (ValueError, AssertionError) as ex:
             problems.append(dict(tree=e['name'], cls='<package>', what='unparsed', why=f"not expressible as a Coq term: {ex}"))
             continue
         n_classes += len(par['classes'])
         n_dclasses += len(par['dclasses'])
-        items.append((e, par, terms, bad, dbad))
+        n_iclasses += len(par['iclasses'])
+        items.append((e, par, terms, bad, dbad, ibad | {('g', c) for c in gbad}))
     os.makedirs(CASES, exist_ok=True)
     HEAD = ("From EO Require Import Prelude.Py Prelude.Corr Model.Spec Model.Elab Model.PyStmt Model.RenderSer Model.RenderCheck "
-            "Model.PyStmtR Model.RenderDeser Model.RenderCheckD.\n"
+            "Model.PyStmtR Model.RenderDeser Model.RenderCheckD Model.RenderInit Model.RenderCheckI.\n"
             "Open Scope string_scope.\nOpen Scope list_scope.\nOpen Scope Z_scope.\n")
     procs = []
     for off in range(0, len(items), per_file):
         fn = os.path.join(CASES, f"{name}_render_{off // per_file}.v")
         with open(fn, 'w') as f:
             f.write(HEAD)
-            for k, (e, par, terms, bad, dbad) in enumerate(items[off:off + per_file]):
+            for k, (e, par, terms, bad, dbad, ibad) in enumerate(items[off:off + per_file]):
                 f.write(f"Definition t{k} : list rfile := {terms[1]}.\n")
                 f.write(f"Definition p{k} : parsed :=\n  {terms[0]}.\n")
                 f.write(f"Eval vm_compute in (render_detail t{k} p{k}).\n")
                 f.write(f"Definition q{k} : dparsed :=\n  {terms[2]}.\n")
                 f.write(f"Eval vm_compute in (render_detail_d t{k} q{k}).\n")
+                f.write(f"Definition r{k} : iparsed :=\n  {terms[3]}.\n")
+                f.write(f"Definition g{k} : gparsed :=\n  {terms[4]}.\n")
+                f.write(f"Eval vm_compute in (render_detail_i t{k} r{k} ++ render_detail_g t{k} g{k}).\n")
         while len([p for p in procs if p[0].poll() is None]) >= 4:
             time.sleep(0.05)
         p = subprocess.Popen(['bash', '-c', f'ulimit -s unlimited 2>/dev/null || ulimit -s 1000000; exec timeout {timeout} coqc -Q {COQ} EO -w -all {fn}'],
                              stdout=subprocess.PIPE, stderr=subprocess.STDOUT, text=True, cwd=COQ)
         procs.append((p, fn, off, min(per_file, len(items) - off)))
-    n_outside = n_doutside = 0
-    outside_d = []
+    n_outside = n_doutside = n_ioutside = 0
+    outside_d, outside_i = [], []
     for p, fn, off, n in procs:
         out, _ = p.communicate()
         det = re.findall(r'=\s*(\[.*?\])\s*:\s*list \(string \* string\)', out, flags=re.S)
-        if p.returncode != 0 or len(det) != 2 * n:
+        if p.returncode != 0 or len(det) != 3 * n:
             problems.append(dict(tree='*', cls='<coq>', what='coqc failed on ' + fn, detail=out[-800:]))
             continue
         for k in range(n):
-            e, par, terms, bad, dbad = items[off + k]
-            for cls, what in re.findall(r'\("([^"]*)",\s*"([^"]*)"\)', det[2 * k]):
+            e, par, terms, bad, dbad, ibad = items[off + k]
+            for cls, what in re.findall(r'\("([^"]*)",\s*"([^"]*)"\)', det[3 * k + 2]):
+                if (what == 'missing' and cls in ibad) or (what == 'missing properties' and (('g', cls) in ibad or cls in ibad)):
+                    continue
+                if what == 'outside the theorem':
+                    n_ioutside += 1
+                    outside_i.append((e['name'], cls))
+                    continue
+                pr = dict(tree=e['name'], cls=cls, what='mismatch: ' + what, method='__init__')
+                pr['parsed'] = dict(par['iclasses']).get(cls)
+                problems.append(pr)
+            for cls, what in re.findall(r'\("([^"]*)",\s*"([^"]*)"\)', det[3 * k]):
                 if what == 'missing' and cls in bad:
                     continue          # already reported as unparsed
                 if what == 'outside the theorem':
@@ -519,7 +546,7 @@ def render_stream(C, entries, name, per_file=25, timeout=900):
                 pr = dict(tree=e['name'], cls=cls, what='mismatch: ' + what)
                 pr['parsed'] = dict(par['classes']).get(cls)
                 problems.append(pr)
-            for cls, what in re.findall(r'\("([^"]*)",\s*"([^"]*)"\)', det[2 * k + 1]):
+            for cls, what in re.findall(r'\("([^"]*)",\s*"([^"]*)"\)', det[3 * k + 1]):
                 if what == 'missing' and cls in dbad:
                     continue
                 if what == 'outside the theorem':
@@ -536,7 +563,7 @@ def render_stream(C, entries, name, per_file=25, timeout=900):
             fn = os.path.join(CASES, f"{name}_render_show.v")
             with open(fn, 'w') as f:
                 f.write(HEAD)
-                show = 'render_show_d' if pr.get('method') == 'deserialize' else 'render_show'
+                show = {'deserialize': 'render_show_d', '__init__': 'render_show_i'}.get(pr.get('method'), 'render_show')
                 f.write(f"Definition t : list rfile := {coq_tree(e['tree'])}.\nEval vm_compute in ({show} t {cs(pr['cls'])}).\n")
             rc, out = sh(['timeout', '120', 'coqc', '-Q', COQ, 'EO', '-w', '-all', fn], cwd=COQ)
             pr['model'] = re.sub(r'\s+', ' ', out)[-3000:]
@@ -548,13 +575,15 @@ def render_stream(C, entries, name, per_file=25, timeout=900):
                                model=pr.get('model'), impl=pr.get('parsed') or pr.get('dump'))
             else:
                 C.broken.append(dict(kind='correspondence', stream='render', msg=f"{pr['what']}: {pr.get('detail', '')}"[:1000]))
-        C.stream('corr.render', n_classes + n_dclasses, n_classes + n_dclasses,
+        C.stream('corr.render', n_classes + n_dclasses + n_iclasses, n_classes + n_dclasses + n_iclasses,
                  sample=(dict(tree=items[0][0]['name'], cls=items[0][1]['classes'][0][0], stmts=items[0][1]['classes'][0][1][:600])
                          if items and items[0][1]['classes'] else None))
         C.cov.setdefault('trees', {})['render'] = dict(trees=len(items), classes=n_classes, outside_theorem=n_outside,
-                                                       deserialize_methods=n_dclasses, deserialize_outside_theorem=n_doutside, problems=len(problems))
-    log(f"[{C.pid if C is not None else '-'}] render: {n_classes} serialize + {n_dclasses} deserialize methods of {len(items)} trees, "
-        f"{n_outside} + {n_doutside} outside the theorems' static side conditions, {len(problems)} problem(s), {time.time() - t0:.1f}s")
+                                                       deserialize_methods=n_dclasses, deserialize_outside_theorem=n_doutside,
+                                                       init_methods=n_iclasses, init_outside_theorem=n_ioutside, problems=len(problems))
+    log(f"[{C.pid if C is not None else '-'}] render: {n_classes} serialize + {n_dclasses} deserialize + {n_iclasses} __init__ methods of {len(items)} trees, "
+        f"{n_outside} + {n_doutside} + {n_ioutside} outside the theorems' static side conditions, {len(problems)} problem(s), {time.time() - t0:.1f}s")
     render_stream.last = dict(trees=len(items), classes=n_classes, outside_theorem=n_outside, deserialize_methods=n_dclasses,
-                              deserialize_outside_theorem=n_doutside, problems=len(problems), deserialize_outside=outside_d)
+                              deserialize_outside_theorem=n_doutside, problems=len(problems), deserialize_outside=outside_d,
+                              init_methods=n_iclasses, init_outside_theorem=n_ioutside, init_outside=outside_i)
     return problems
